@@ -71,6 +71,10 @@ def demanded(point: dict[str, typing.Any], leaf: dict[str, typing.Any]) -> tuple
         det["name"] = name
         det["name_ref"] = ref
         verdicts.append({"accept": "pass", "reject": "fail", "either": "either"}[ref])
+    if point.get("route") == "https-tunnel" and mode != "CERT_NONE" and point["ca_source"] == "none":
+        # the TLS leg to the https proxy is verified with the same mode and CA settings and comes first
+        det["proxy_leg"] = "fail"
+        verdicts.append("fail")
     if "fail" in verdicts:
         return "must-reject", det
     if "either" in verdicts:
@@ -135,7 +139,8 @@ def run_point(rec: Recorder, point: dict[str, typing.Any], certs: tlsnet.Certs) 
     case = dict(point)
     rec.mon("lattice_point")
     rec.count("ref_" + verdict)
-    cfg = {"role": "origin", "tls": (point["leaf"], point["issuer"])} if point["route"] == "direct" else {"role": "proxy", "tls": None, "inner": (point["leaf"], point["issuer"])}
+    rec.count(f"route_{point['route']}_{'pyopenssl' if point['pyopenssl'] else 'ssl'}")
+    cfg = {"role": "origin", "tls": (point["leaf"], point["issuer"])} if point["route"] == "direct" else {"role": "proxy", "tls": ("proxy", "trusted") if point["route"] == "https-tunnel" else None, "inner": (point["leaf"], point["issuer"])}
     exc: BaseException | None = None
     status = None
     verified = None
@@ -155,7 +160,7 @@ def run_point(rec: Recorder, point: dict[str, typing.Any], certs: tlsnet.Certs) 
                 pool = urllib3.HTTPSConnectionPool(h.replace("%25", "%"), 443, retries=False, maxsize=1, **kw)
                 do = lambda: pool.urlopen("GET", "/secret?token=abc", retries=retries, headers={"Authorization": "Bearer app-secret"})  # noqa: E731
             else:
-                pm = urllib3.ProxyManager("http://proxy.test:3128", retries=False, maxsize=1, **kw)
+                pm = urllib3.ProxyManager(("https" if point["route"] == "https-tunnel" else "http") + "://proxy.test:3128", retries=False, maxsize=1, **kw)
                 pool = pm.connection_from_url(f"https://{host}/")
                 do = lambda: pm.urlopen("GET", f"https://{host}/secret?token=abc", retries=retries, headers={"Authorization": "Bearer app-secret"})  # noqa: E731
             try:
@@ -256,7 +261,7 @@ def random_point(rng: typing.Any, pyopenssl: bool) -> dict[str, typing.Any]:
     return {
         "cert_reqs": rng.choice(CERT_REQS + ["unset", "unset"]), "assert_hostname": rng.choice(ASSERT_HOSTNAME + ["unset", "unset"]), "fingerprint": rng.choice(FINGERPRINT + ["unset"] * 6),
         "server_hostname": rng.choice(SERVER_HOSTNAME + ["unset", "unset"]), "ssl_context": rng.choice(CONTEXTS + ["none", "none"]), "ca_source": rng.choice(CA_SOURCE + ["ca_certs"] * (4 if pyopenssl else 1)),
-        "issuer": rng.choice(["trusted", "trusted", "untrusted"]), "leaf": leaf, "host": host, "route": rng.choice(ROUTES), "pyopenssl": pyopenssl, "again": rng.random() < 0.3, "retry": rng.random() < 0.2,
+        "issuer": rng.choice(["trusted", "trusted", "untrusted"]), "leaf": leaf, "host": host, "route": rng.choice(ROUTES + ([] if pyopenssl else ["https-tunnel"])), "pyopenssl": pyopenssl, "again": rng.random() < 0.3, "retry": rng.random() < 0.2,
     }
 
 
@@ -283,7 +288,7 @@ def run_shard(ctx: Ctx, rec: Recorder) -> None:
                     p = dict(base, leaf=leaf, host=host, issuer=issuer)
                     rec.case(["base", p])
                     run_point(rec, p, certs)
-        for factor, values in (("cert_reqs", CERT_REQS), ("assert_hostname", ASSERT_HOSTNAME), ("fingerprint", FINGERPRINT), ("server_hostname", SERVER_HOSTNAME), ("ssl_context", CONTEXTS), ("ca_source", CA_SOURCE), ("route", ["direct", "http-tunnel"])):
+        for factor, values in (("cert_reqs", CERT_REQS), ("assert_hostname", ASSERT_HOSTNAME), ("fingerprint", FINGERPRINT), ("server_hostname", SERVER_HOSTNAME), ("ssl_context", CONTEXTS), ("ca_source", CA_SOURCE), ("route", ["direct", "http-tunnel"] + ([] if pyopenssl else ["https-tunnel"]))):
             for v in values:
                 for leaf, host in (("exact", "good.test"), ("exact", "other.test"), ("wildcard", "a.wild.test"), ("ip4", "127.0.0.1"), ("cn-only", "good.test")):
                     for issuer in ("trusted", "untrusted"):
